@@ -39,6 +39,7 @@ type c18Case struct {
 	Records    int    `json:"records"`
 	Loader     string `json:"loader,omitempty"`
 	Memstore   uint64 `json:"memstore,omitempty"`
+	Closer     bool   `json:"closer,omitempty"` // db: goroutine 0 closes the handle while the others are still calling
 	// observations
 	Done       int      `json:"done"`
 	Mismatches []string `json:"mismatches,omitempty"`
@@ -446,7 +447,7 @@ func c18Db(c *c18Case, dir string, ml *mismatchLog) {
 	for i := 0; i < 3; i++ {
 		must(db.Put(fmt.Sprintf("shared-%d", i), strings.Repeat("_", 24)))
 	}
-	closer := c.Seed%3 == 0 // in some runs goroutine 0 closes the handle while the others are still calling
+	closer := c.Seed%3 == 0 || c.Closer // goroutine 0 closes the handle while the others are still calling
 	var closing int32
 	closedOK := func(err error) bool {
 		return atomic.LoadInt32(&closing) == 1 && errors.Is(err, simpledb.ErrAlreadyClosed)
@@ -553,6 +554,14 @@ func genC18(r *rand.Rand, tier string) []Case {
 			c.Calls *= 4
 		}
 		cases = append(cases, c)
+	}
+	// Close while many goroutines are in the middle of Put / Get / Delete
+	nc := 5
+	if tier == "thorough" {
+		nc = 40
+	}
+	for i := 0; i < nc; i++ {
+		cases = append(cases, &c18Case{Seed: r.Int63n(1 << 40), Procs: []int{2, 4, 16}[i%3], Goroutines: 6 + r.Intn(3), Mode: "db", Calls: 150, Memstore: []uint64{200, 20000}[i%2], Closer: true})
 	}
 	return cases
 }
